@@ -36,6 +36,13 @@ def _run_task(job):
         signal.alarm(int(limit))
     try:
         res = fn(*args)
+        if isinstance(res, dict) and res.get('status') == 'unreproduced' and not res.get('violations'):
+            # a counterexample the native run does not confirm is inconclusive: branch-feasibility queries that time out on a loaded machine keep
+            # infeasible paths alive and can produce one.  Run the harness once more; a clean second run is a full verdict of its own.
+            res2 = fn(*args)
+            if isinstance(res2, dict) and res2.get('status') in ('ok', 'violation'):
+                res2['retried_after_unreproduced'] = True
+                res = res2
     except TaskTimeout:
         res = dict(status='timeout', detail='task exceeded %ds' % limit)
     except BaseException as e:      # noqa - report everything from workers
